@@ -248,6 +248,9 @@ class FakeSocket:
         return f"<FakeSocket #{self.conn}>"
 
 
+EVHOOK = None      # set by the thread scheduler harness: called with the name of a wake-pipe / select event
+
+
 class FakePipeEnd:
     def __init__(self, pipe, writer: bool):
         self.pipe = pipe
@@ -257,6 +260,8 @@ class FakePipeEnd:
     def send(self, data) -> int:
         self.pipe.count += len(data)
         self.pipe.total += len(data)
+        if EVHOOK is not None:
+            EVHOOK("wake")
         return len(data)
 
     def recv(self, n: int) -> bytes:
@@ -264,6 +269,8 @@ class FakePipeEnd:
             raise BlockingIOError(errno.EAGAIN, "would block")
         k = min(n, self.pipe.count)
         self.pipe.count -= k
+        if EVHOOK is not None:
+            EVHOOK("recv")
         return b"0" * k
 
     def close(self) -> None:
@@ -399,7 +406,11 @@ class World:
             if not self.sched.block_until(ready, "select", can_timeout=True):
                 if timeout:
                     self.clock.advance_ms(int(round(timeout * 1000)))
+                if EVHOOK is not None:
+                    EVHOOK("select", 0, int(all(self._writable(s) for s in rlist[:1])))
                 return ([], [], [])
+            if EVHOOK is not None:
+                EVHOOK("select", int(bool(rlist) and self._readable(rlist[0])), int(all(self._writable(s) for s in rlist[:1])))
         for _ in range(2):
             r = [s for s in rlist if self._readable(s)]
             wr = [s for s in wlist if self._writable(s)]
